@@ -153,6 +153,8 @@ func (its *WiredDatatype) checkOptionAndError(ppp *model.PushPullPack) errors.Or
 		its.ResetTransaction()
 		its.checkPoint.Cseq = ppp.CheckPoint.Cseq
 		its.checkPoint.Sseq = ppp.CheckPoint.Sseq - uint64(len(ppp.Operations))
+		// the server may already hold operations of this client; the numbering continues after them
+		its.opID.Seq = ppp.CheckPoint.Cseq
 		its.L().Infof("ready to subscribe: %s", its.checkPoint.ToString())
 	}
 	return nil
@@ -209,6 +211,7 @@ func (its *WiredDatatype) updateStateOfDatatype(
 			its.localBuffer = make([]*model.Operation, 0, constants.OperationBufferSize)
 			newOpID := model.NewOperationIDWithCUID(its.opID.CUID)
 			newOpID.Lamport = 1 // Because of SnapshotOperation
+			newOpID.Seq = its.opID.Seq
 			its.SetOpID(newOpID)
 			its.L().Infof("reset buffer and opID:%s because DUE_TO_SUBSCRIBE_CREATE = > SUBSCRIBE", its.opID.ToString())
 		}
@@ -234,9 +237,14 @@ func (its *WiredDatatype) ApplyPushPullPack(ppp *model.PushPullPack) {
 	var oldState, newState model.StateOfDatatype
 	var errs errors.OrdaError = &errors.MultipleOrdaErrors{}
 	var opList []interface{}
+	// a datatype that is being subscribed starts from scratch and needs every operation of the pack,
+	// including its own ones that an earlier request (whose response was lost) has stored
+	subscribing := ppp.GetPushPullPackOption().HasSubscribeBit() && its.state != model.StateOfDatatype_SUBSCRIBED
 	err := its.checkOptionAndError(ppp)
 	if err == nil {
-		its.excludeDuplicatedOperations(ppp)
+		if !subscribing {
+			its.excludeDuplicatedOperations(ppp)
+		}
 		its.syncCheckPoint(ppp.CheckPoint)
 		oldState, newState, err = its.updateStateOfDatatype(ppp)
 		if err != nil {
